@@ -75,3 +75,8 @@ package hashing
 //@   pure
 //@   ensures [digest_of_content] err == nil ==> has(fsIsFile, filePath) && h == H(select(fsData, filePath))
 //@   ensures [reads_only] fsData == old(fsData) && fsExec == old(fsExec) && fsIsFile == old(fsIsFile)
+
+//@ func NewTargetHasher(graph) (t)
+//@   pure
+//@   allocates t
+//@   ensures [fields] t != nil && t.graph == graph
